@@ -615,7 +615,14 @@ func extractC11(c *Ctx) error {
 	c.Info("handler_fields", hf)
 	c.Info("hash_items", items)
 	c.Info("opaque_calls", SortedSet(x.opaque))
-	return nil
+	// second round (c11b.go): implementers of the claim interface, ValidateBasic tables, additionalPatchChecks
+	if err := x.extractImpls(names, tfiles); err != nil {
+		return err
+	}
+	if err := x.extractValidate(names); err != nil {
+		return err
+	}
+	return x.extractBatchGate()
 }
 
 // rootIdent returns the identifier at the root of an lvalue / argument expression (x, x.f, *x, &x, x[i], (x)).
